@@ -11,14 +11,82 @@ pub fn ordered_nodes(g: &Graph) -> (Vec<usize>, Vec<usize>) {
     (vertices, m)
 }
 
-/// control: the restores are swapped
-pub fn detection_webs(g: &mut Graph) -> usize {
+/// controls: the restores are swapped; the block width is read before the outputs are de-duplicated; the no-output block is outs wide
+pub fn detection_webs(g: &mut Graph) -> Vec<usize> {
     let old_inputs = g.inputs().clone();
     let old_outputs = g.outputs().clone();
-    g.set_outputs(vec![]);
+    let mut outputs: Vec<usize> = Vec::new();
+    for v in g.vertices() {
+        outputs.push(v);
+    }
+    let outs = outputs.len();
+    outputs.sort_unstable();
+    outputs.dedup();
+    g.set_outputs(outputs);
     g.set_inputs(vec![]);
     let (nodelist, index_map) = ordered_nodes(g);
+    let big_n = g.adjacency_matrix(Some(&nodelist));
+    let i_n = BitMatrix::identity(outs);
+    let zeroblock = BitMatrix::zeros(big_n.rows() - outs, outs);
+    let mdl = i_n.vstack(&zeroblock);
+    let md = mdl.hstack(&big_n);
+    let eye_part = BitMatrix::identity(outs);
+    let zero_part = BitMatrix::zeros(outs, md.cols() - outs);
+    let no_output = eye_part.hstack(&zero_part);
+    let md_no_output = md.vstack(&no_output);
+    let mdnons = md_no_output.nullspace();
+    let mut pws = Vec::new();
+    for basis in mdnons.into_iter() {
+        let w = pw(&index_map, &basis, g);
+        pws.push(w);
+    }
     g.set_outputs(old_inputs);
     g.set_inputs(old_outputs);
-    nodelist.len()
+    pws
+}
+
+pub enum Pauli {
+    X,
+    Y,
+    Z,
+}
+pub struct PauliWeb;
+impl PauliWeb {
+    pub fn set_edge(&mut self, a: usize, b: usize, p: Pauli) {}
+}
+
+/// control: the Pauli letters of the single-colour cases are swapped
+pub fn pw(index_map: &Vec<usize>, v: &BitMatrix, g: &Graph) -> usize {
+    let n_outs = g.inputs().len() + g.outputs().len();
+    let mut red_edges = std::collections::BTreeSet::new();
+    let mut green_edges = std::collections::BTreeSet::new();
+    let mut pw = PauliWeb;
+    for col in 0..v.cols() {
+        if v.bit(0, col) {
+            let node = index_map[col - n_outs];
+            let node_color = g.vertex_type(node);
+            for edge in g.edges() {
+                if node == edge.0 || node == edge.1 {
+                    if node_color == VType::Z {
+                        green_edges.insert((edge.0, edge.1));
+                    } else if node_color == VType::X {
+                        red_edges.insert((edge.0, edge.1));
+                    }
+                }
+            }
+        }
+    }
+    for e in &red_edges {
+        if green_edges.contains(e) {
+            pw.set_edge(e.0, e.1, Pauli::Y);
+        } else {
+            pw.set_edge(e.0, e.1, Pauli::X);
+        }
+    }
+    for e in green_edges {
+        if !red_edges.contains(&e) {
+            pw.set_edge(e.0, e.1, Pauli::Z);
+        }
+    }
+    0
 }
